@@ -3,6 +3,7 @@
   (definitions live in SV/Model/C16.lean and SV/Spec/C16.lean, helper lemmas in SV/Proofs/C16*.lean).
 -/
 import SV.Proofs.C16Lines
+import SV.Proofs.C16Run
 
 namespace SV.Props.C16
 open SV.Model.C16 SV.Spec.C16 SV.Proofs.C16
@@ -279,6 +280,86 @@ theorem har_repaired_finds (hs : List (Str × List Str)) (name : Str) (h : ∃ p
     (dictGet (harKey .repaired name) (lowerHeaders hs [])).isSome = true :=
   lowerHeaders_finds hs [] name (Or.inl h)
 
+/-! ## several report handlers in one run (`initialize_handlers` + `_execute` + the writer threads) -/
+
+/-- `initialize_handlers` gives every cassette writer a queue object of its own (`field(default_factory=Queue)`). -/
+theorem init_handlers_own_queues (formats : List Report) (i : Nat) :
+    OwnQueue (cfgOf (initCassettes formats)) (initCassettes formats).length i := by
+  intro j _ hji
+  simpa [cfgOf] using hji
+
+/-- Exactly once, whatever else is written at the same time.  For every set of cassette writers in which writer `i`
+    shares its queue object with no other, every seed, every event history, every point at which a later handler raises,
+    and EVERY interleaving of the main thread with the writer threads:
+    * what writer `i` has put into its file so far is a prefix of the report the specification asks for
+      (the preamble once for VCR, then each delivered exchange once, in delivery order) — nothing foreign, nothing twice,
+      also while the run is still going or when `shutdown` stopped waiting for the thread;
+    * when the writer has returned, the file is exactly that report;
+    * the writer never waits forever: once `_execute` has put everything, a writer that has not returned still has a
+      message to take. -/
+theorem execute_cassette_exactly_once (cfg : Nat → HCfg) (n i : Nat) (hi : i < n) (hown : OwnQueue cfg n i)
+    (seed : Option Nat) (evs : List Ev) (crash : Option (Nat × Nat)) (sched : List Act) :
+    let s := run cfg n sched (Sys.init (mainProgram n seed evs crash))
+    ((s.ws i).out <+: expectedFile (cfg i).fmt seed (deliveredTo i evs crash)) ∧
+    ((s.ws i).done = true → reportOK (cfg i).fmt seed (deliveredTo i evs crash) (s.ws i).out = true) ∧
+    (s.pc = [] → (s.ws i).done = false → s.queues (cfg i).queue ≠ []) := by
+  intro s
+  obtain ⟨h1, h2, h3⟩ := writer_after_run cfg n i hi hown seed evs crash sched
+  exact ⟨h1, fun hd => by have := h2 hd; simp only [reportOK]; exact beq_iff_eq.mpr this, h3⟩
+
+/-- The same for the handlers `initialize_handlers` actually builds: every requested cassette (`--report=vcr,har`,
+    either one alone, with or without JUnit) ends up with every delivered exchange exactly once, under every
+    interleaving. -/
+theorem execute_reports_exactly_once (formats : List Report) (i : Nat) (hi : i < (initCassettes formats).length)
+    (seed : Option Nat) (evs : List Ev) (crash : Option (Nat × Nat)) (sched : List Act) :
+    let fs := initCassettes formats
+    let s := run (cfgOf fs) fs.length sched (Sys.init (mainProgram fs.length seed evs crash))
+    (s.ws i).done = true → (s.ws i).out = expectedFile (fs.getD i .vcr) seed (deliveredTo i evs crash) := by
+  intro fs s hd
+  exact (writer_after_run (cfgOf fs) fs.length i hi (init_handlers_own_queues formats i) seed evs crash sched).2.1 hd
+
+/-- No deadlock and no lost message: from ANY point of ANY interleaving, letting the main thread finish and then every
+    writer run makes every writer return with its report complete — `shutdown`'s join never waits for a thread that
+    cannot finish, and a report that was cut short by the join time-out is completed by its thread. -/
+theorem execute_completes (cfg : Nat → HCfg) (n : Nat) (hown : ∀ i, i < n → OwnQueue cfg n i) (seed : Option Nat)
+    (evs : List Ev) (crash : Option (Nat × Nat)) (sched : List Act) :
+    let pc0 := mainProgram n seed evs crash
+    let s := run cfg n (sched ++ (List.replicate pc0.length .main ++ drainSched pc0.length n)) (Sys.init pc0)
+    s.pc = [] ∧ ∀ i, i < n → (s.ws i).done = true ∧ (s.ws i).out = expectedFile (cfg i).fmt seed (deliveredTo i evs crash) := by
+  intro pc0 s
+  obtain ⟨hpc, hdone⟩ := completes cfg n hown seed evs crash sched
+  exact ⟨hpc, fun i hi => ⟨hdone i hi, (writer_after_run cfg n i hi (hown i hi) seed evs crash _).2.1 (hdone i hi)⟩⟩
+
+/-- Running the main thread to the end and then every writer in turn is an interleaving after which both writers of
+    `--report=vcr,har` have returned (the hypotheses of the theorems above are met by real runs). -/
+theorem execute_completes_example :
+    let fs := initCassettes [.vcr, .har, .junit]
+    let s := run (cfgOf fs) 2 (List.replicate 8 .main ++ List.replicate 4 (.work 0) ++ List.replicate 4 (.work 1))
+      (Sys.init (mainProgram 2 (some 1) [some [10, 11], none, some [12]] none))
+    (s.ws 0).done = true ∧ (s.ws 1).done = true ∧
+    (s.ws 0).out = [.preamble (some 1), .entry 10, .entry 11, .entry 12] ∧ (s.ws 1).out = [.entry 10, .entry 11, .entry 12] := by
+  decide
+
+/-- The hypothesis "writer `i` shares its queue with no other writer" cannot be dropped: with one queue object behind
+    both writers there is an interleaving after which both writers have returned, the VCR cassette lacks its preamble
+    and an exchange, and the HAR file lists an exchange twice. -/
+theorem shared_queue_full_false :
+    ¬ (∀ (cfg : Nat → HCfg) (n i : Nat) (seed : Option Nat) (evs : List Ev) (sched : List Act), i < n →
+        let s := run cfg n sched (Sys.init (mainProgram n seed evs none))
+        (s.ws i).done = true → (s.ws i).out = expectedFile (cfg i).fmt seed (deliveredTo i evs none)) := by
+  intro h
+  have := h sharedCfg 2 0 (some 1) [some [10], some [11]]
+    (List.replicate 8 .main ++ [.work 1, .work 1, .work 1, .work 0, .work 1, .work 1, .work 1, .work 0, .work 0]) (by decide)
+  revert this
+  decide
+
+/-- `get_command_representation`: the command line is reported only for the `st` / `schemathesis` entry points. -/
+theorem command_repr_spec (a0 : Str) (args : List Str) :
+    commandRepr (a0 :: args) =
+      if (lit "schemathesis").isSuffixOf a0 = true ∨ (lit "st").isSuffixOf a0 = true then lit "st " ++ joinSp args
+      else lit "<unknown entrypoint>" := by
+  simp [commandRepr]
+
 /-! ## non-vacuity of the hypotheses, and the concrete shapes -/
 
 example : entryOK sampleEntry = true := by decide
@@ -292,5 +373,11 @@ example : decodeDQ (writeDQ [97, 34, 10, 0x85, 0xD800, 0x1F600, 0xFEFF, 39] ++ [
 example : harFirst .asFound (lit "Content-Type") (lowerHeaders [(lit "Content-Type", [lit "text/plain"])] []) = [] ∧
     harFirst .repaired (lit "Content-Type") (lowerHeaders [(lit "Content-Type", [lit "text/plain"])] []) = lit "text/plain" := by
   decide
+
+example : OwnQueue (cfgOf [.vcr, .har]) 2 0 ∧ OwnQueue (cfgOf [.vcr, .har]) 2 1 :=
+  ⟨init_handlers_own_queues [.vcr, .har] 0, init_handlers_own_queues [.vcr, .har] 1⟩
+example : ¬ OwnQueue sharedCfg 2 0 := fun h => h 1 (by decide) (by decide) rfl
+example : deliveredTo 0 [some [1], some [2], some [3]] (some (1, 1)) = [some [1], some [2]] ∧
+    deliveredTo 1 [some [1], some [2], some [3]] (some (1, 1)) = [some [1]] := by decide
 
 end SV.Props.C16
